@@ -125,6 +125,13 @@ func runC08(c *Collector, r *Rng, thorough bool) {
 			}
 			return (*cose.UntaggedSign1Message)(m).MarshalCBOR()
 		}, reps, headersInModel(&m.Headers))
+		if err == nil && !p {
+			if d := decodeKind(kind, out); d.err == nil && d.s1 != nil {
+				if !bytes.Equal(d.s1.Payload, m.Payload) || (d.s1.Payload == nil) != (m.Payload == nil) || !bytes.Equal(d.s1.Signature, m.Signature) {
+					c.Fail("C08/decodes-to-another-value", fmt.Sprintf("encoded payload %s / signature %x, decoded payload %s / signature %x", nilOrHex(m.Payload), m.Signature, nilOrHex(d.s1.Payload), d.s1.Signature), map[string]any{"op": trunc(op, 600), "out": hx(out)})
+				}
+			}
+		}
 		s := &cose.Signature{Headers: genGoHeaders(r, cfg, alg, true, r.Chance(1, 3)), Signature: pick(r, [][]byte{genSigBytes(r), genSigBytes(r), nil})}
 		op, obs, out, err, p = execEncSignature(s)
 		c08Check(c, "enc/signature", op, obs, out, err, p, "DSignature", func() ([]byte, error) { return s.MarshalCBOR() }, reps, headersInModel(&s.Headers))
@@ -146,6 +153,17 @@ func runC08(c *Collector, r *Rng, thorough bool) {
 			}
 			op, obs, out, err, p = execEncSignMsg(sm)
 			c08Check(c, "enc/signmsg", op, obs, out, err, p, "DSignMsg", func() ([]byte, error) { return sm.MarshalCBOR() }, reps, ok)
+			if err == nil && !p {
+				if d := decodeKind("DSignMsg", out); d.err == nil && d.sm != nil {
+					same := bytes.Equal(d.sm.Payload, sm.Payload) && (d.sm.Payload == nil) == (sm.Payload == nil) && len(d.sm.Signatures) == len(sm.Signatures)
+					for j := 0; same && j < len(sm.Signatures); j++ {
+						same = d.sm.Signatures[j] != nil && sm.Signatures[j] != nil && bytes.Equal(d.sm.Signatures[j].Signature, sm.Signatures[j].Signature)
+					}
+					if !same {
+						c.Fail("C08/decodes-to-another-value", fmt.Sprintf("COSE_Sign: encoded payload %s with %d signatures, decoded payload %s with %d", nilOrHex(sm.Payload), len(sm.Signatures), nilOrHex(d.sm.Payload), len(d.sm.Signatures)), map[string]any{"op": trunc(op, 600), "out": hx(out)})
+					}
+				}
+			}
 		}
 		// ---- Sign helpers: signed bytes == emitted bytes ----
 		if i%2 == 0 {
@@ -509,6 +527,13 @@ func renorm(kind string, w *W) []byte {
 		return &c
 	}
 	sigItem := func(s *W) *W { return wArr(0, s.Kids[0], s.Kids[1], short(s.Kids[2])) }
+	if (kind == "DSign1" || kind == "DSignMsg") && w.Maj != 6 {
+		// accepted without its tag: the faithful re-encoding has no tag either
+		if kind == "DSign1" && len(w.Kids) == 4 {
+			return wArr(0, w.Kids[0], w.Kids[1], short(w.Kids[2]), short(w.Kids[3])).Ser()
+		}
+		return w.Ser()
+	}
 	switch kind {
 	case "DSign1":
 		b := w.Kids[0]
@@ -644,6 +669,11 @@ func runC09(c *Collector, r *Rng, thorough bool) {
 			}
 		}
 		data := t.Ser()
+		if (kind == "DSign1" || kind == "DSignMsg") && t.Maj == 6 && i%7 == 3 {
+			// the same structure without its tag, offered to the decoder of the tagged kind: whatever a decoder
+			// accepts, it reproduces
+			data = t.Kids[0].Ser()
+		}
 		d := decodeCase(c, "reencode/"+kind, kind, data)
 		if d.err != nil || d.paniced {
 			continue
@@ -774,8 +804,14 @@ func runC09(c *Collector, r *Rng, thorough bool) {
 	}
 }
 
+// clearRawEmpty: discard the retained bytes by truncation instead of by nil (callers do both)
+var clearRawEmpty bool
+
 func clearRaw(h *cose.Headers) {
 	h.RawProtected, h.RawUnprotected = nil, nil
+	if clearRawEmpty {
+		h.RawProtected, h.RawUnprotected = []byte{}, []byte{}
+	}
 	for _, v := range h.Unprotected {
 		switch t := v.(type) {
 		case *cose.Countersignature:
@@ -811,6 +847,16 @@ func c09Cleared(c *Collector, kind string, data []byte, rep map[string]any) {
 	}
 	d := decodeKind(kind, data)
 	c1, err := enc(&d)
+	// discarding by truncation (raw[:0]) is the same as discarding by nil
+	{
+		clearRawEmpty = true
+		de := decodeKind(kind, data)
+		ce, eerr := enc(&de)
+		clearRawEmpty = false
+		if (eerr == nil) != (err == nil) || !bytes.Equal(ce, c1) {
+			c.Fail("C09/cleared-by-truncation-differs", fmt.Sprintf("raw bytes set to an empty slice: %x (%v); set to nil: %x (%v)", ce, eerr, c1, err), rep)
+		}
+	}
 	if err != nil {
 		c.Eval("cleared/unencodable", hx(data), false)
 		return
@@ -971,4 +1017,11 @@ func c09Partial(c *Collector, kind string, data, untouched []byte, rep map[strin
 			}
 		}
 	}
+}
+
+func nilOrHex(b []byte) string {
+	if b == nil {
+		return "nil"
+	}
+	return "h'" + hx(b) + "'"
 }
